@@ -1,6 +1,6 @@
 // Sanitizer driver for the native Pfaffian (C04, DESIGN 2.9).
 //
-//   pf_driver <vector file> [<first index>]
+//   pf_driver <vector file> [<first index> [<fork mode 0|1>]]
 //
 // vector file:  int32 count, then per vector
 //   int32 dtype    0 = float, 1 = double
@@ -42,6 +42,7 @@ int main(int argc, char **argv)
     driver_setup_streams();
     Reader rd(argv[1]);
     long first = argc > 2 ? atol(argv[2]) : 0;
+    bool fork_mode = argc > 3 && atoi(argv[3]) == 1;
     long count = rd.i32();
     for (long idx = 0; idx < count; idx++)
     {
@@ -50,11 +51,12 @@ int main(int argc, char **argv)
         auto entries = rd.f64s((size_t)n * n);
         if (idx < first)
             continue;
-        mark_begin(idx);
-        if (dtype == 0)
-            run_one<float>(idx, n, entries);
-        else
-            run_one<double>(idx, n, entries);
+        guarded(idx, fork_mode, [&]() {
+            if (dtype == 0)
+                run_one<float>(idx, n, entries);
+            else
+                run_one<double>(idx, n, entries);
+        });
     }
     printf("DONE %ld\n", count);
     return 0;
